@@ -300,16 +300,16 @@ func nr09(c *Ctx, f *FC) map[string]bool {
 
 // the rejection messages of the union-match parsing family on the reviewed tree
 var c09Rejections = map[string]bool{
-	"parseMatchRules: Only default case, illegal.":  true,
-	"parseMatchRules: Unknown match case, illegal.": true,
+	"parseMatchRules: Only default case, illegal.":                                                                  true,
+	"parseMatchRules: Unknown match case, illegal.":                                                                 true,
 	"isUnionMatchRules: Can't distinguish String var pattern or union case only pattern. Syntax error for a while.": true,
-	"isUnionMatchRules: Unknown case rule of match expr(2)": true,
-	"isUnionMatchRules: Unknown case rule of match expr":    true,
-	"exaustiveCheck: match does not cover all cases. Can't find case: %s.": true,
+	"isUnionMatchRules: Unknown case rule of match expr(2)":                                                         true,
+	"isUnionMatchRules: Unknown case rule of match expr":                                                            true,
+	"exaustiveCheck: match does not cover all cases. Can't find case: %s.":                                          true,
 	// the sibling of isUnionMatchRules (same three diagnostics): a target whose type is not known while parsing
 	"isStringMatchRules: Can't distinguish String var pattern or union case only pattern. Syntax error for a while.": true,
-	"isStringMatchRules: Unknown case rule of match expr(2)": true,
-	"isStringMatchRules: Unknown case rule of match expr":    true,
+	"isStringMatchRules: Unknown case rule of match expr(2)":                                                         true,
+	"isStringMatchRules: Unknown case rule of match expr":                                                            true,
 }
 
 func checkC09Rejections(c *Ctx, f *FC, nr map[string]bool) {
